@@ -1301,8 +1301,8 @@ func genDeepUpdate(
 		}
 
 		// first call or new schema
-		if prev == nil || trackedIdx >= len(prev) {
-			if now[trackedIdx] == 0 {
+		if prev == nil || int(pushedIdx) >= len(prev) {
+			if now[pushedIdx] == 0 {
 				continue
 			}
 			indexes = append(indexes, pushedIdx)
